@@ -30,7 +30,6 @@ EXTENDS Naturals, Sequences, FiniteSets, Json, CommandsPolicy
 
 CONSTANTS Sets,     \* row sets driven: {"server", "special"} or {"library"}
           Fixes,    \* see above
-          MaxHs,    \* handshake messages on c1
           MaxCmds,  \* commands on c1
           RespToo,  \* TRUE: registered types are also sent in CommandResp packets (the executor does not look)
           Emit      \* TRUE: print one behaviour per explored command transition
@@ -44,12 +43,13 @@ AllFixes == {"trafficParty", "dnsAuth", "domainAuth", "notifyAuth"}
 VARIABLES cn,     \* c1: [auth, typ, reg, pend (challenge pending for whom), failed, alive]
           ctl,    \* client -> "v" (its own control connection) | "c1": who holds the client-id index entry
           st,     \* store: [m1, m2, k1by, gen, d1, d2, tr]
-          nhs, ncmd,
+          ncmd,
           log,    \* ghost: effects [ty, auth, e] of the latest command (the invariants are evaluated after every command)
           outs,   \* ghost: [ty, auth, out] of the latest command
           hist
-vars == <<cn, ctl, st, nhs, ncmd, log, outs, hist>>
-\* nhs is not in the view: breadth-first search reaches every authentication state first with the fewest handshake messages
+vars == <<cn, ctl, st, ncmd, log, outs, hist>>
+\* hist is not in the view: every authentication state of c1 is explored once, with the handshake prefix that reached it first
+\* (the handshake part of the state space is finite without a bound on the number of messages)
 view == <<cn, ctl, st, ncmd, log, outs>>
 
 \* ------------------------------------------------------------------------------------------
@@ -163,22 +163,20 @@ Out(h) == IF Emit THEN PrintT("BEH " \o ToJson([reg |-> IF "library" \in Sets TH
 \* ------------------------------------------------------------------------------------------
 \* handshake messages on c1 (HandleHandshake; Session.tla has the full machine)
 P1(X, t) ==
-  /\ cn.alive /\ nhs < MaxHs /\ ncmd = 0
+  /\ cn.alive /\ ncmd = 0
   /\ cn.auth # None => X = Victim(cn.auth)       \* after authentication only attempts for another identity are explored, and they fail
   /\ cn' = [cn EXCEPT !.reg = TRUE, !.pend = X]
-  /\ nhs' = nhs + 1
   /\ hist' = Append(hist, [op |-> "Hs", k |-> "P1", id |-> X, resp |-> None, type |-> t])
   /\ UNCHANGED <<ctl, st, ncmd, log, outs>>
 
 \* r = "valid": the HMAC of X's key over the pending challenge; "garbage": anything else
 P2(X, r, t) ==
-  /\ cn.alive /\ nhs < MaxHs /\ ncmd = 0
+  /\ cn.alive /\ ncmd = 0
   /\ cn.pend = X
   /\ r = "valid" => cn.auth = None
   /\ cn' = IF r = "valid" THEN [cn EXCEPT !.auth = X, !.typ = t, !.pend = None, !.failed = FALSE]
                           ELSE [cn EXCEPT !.pend = None, !.failed = TRUE]
   /\ ctl' = IF r = "valid" /\ t = "control" THEN [ctl EXCEPT ![X] = "c1"] ELSE ctl      \* eviction of the previous holder
-  /\ nhs' = nhs + 1
   /\ hist' = Append(hist, [op |-> "Hs", k |-> "P2", id |-> X, resp |-> r, type |-> t])
   /\ UNCHANGED <<st, ncmd, log, outs>>
 
@@ -196,7 +194,7 @@ Cmd(ty, pt, cl, obj) ==
         /\ hist' = h
         /\ Out(h)
   /\ ncmd' = ncmd + 1
-  /\ UNCHANGED <<ctl, nhs>>
+  /\ UNCHANGED ctl
 
 PolicyOut == IF Emit THEN PrintT("BEH " \o ToJson([policy |-> [t \in Types |-> Policy[t]],
                                                   reg |-> IF "library" \in Sets THEN "library" ELSE "server"]))
@@ -206,7 +204,7 @@ Init ==
   /\ cn = [auth |-> None, typ |-> None, reg |-> FALSE, pend |-> None, failed |-> FALSE, alive |-> TRUE]
   /\ ctl = [X \in Clients |-> "v"]
   /\ st = [m1 |-> TRUE, m2 |-> None, k1by |-> None, gen |-> {}, d1 |-> TRUE, d2 |-> None, tr |-> [m \in {"m1", "m2"} |-> 0]]
-  /\ nhs = 0 /\ ncmd = 0 /\ log = {} /\ outs = {} /\ hist = <<>>
+  /\ ncmd = 0 /\ log = {} /\ outs = {} /\ hist = <<>>
   /\ PolicyOut
 
 Next == \/ \E X \in Clients, t \in {"control", "tunnel"} : P1(X, t) \/ \E r \in {"valid", "garbage"} : P2(X, r, t)
